@@ -94,9 +94,14 @@ func runsFor(prop, tier string) []run {
 		c2 := c
 		c2.WShapes = [][2]int{{0, 8}, {0, 16}, {8, 8}, {4, 8}, {3, 2}}
 		c2.Blocks = 2
+		// two user snapshots with automatic ones below, between and above: removals recompute the reclaim boundary
+		c3 := c
+		c3.InitOps = []string{"W:0:24", "SnapA", "W:0:8", "SnapU", "W:8:8", "SnapA", "W:16:8", "SnapA", "W:0:16", "SnapU", "W:8:16"}
+		c3.MaxSnaps = 7
 		return []run{
-			{"3blk-aligned-punch", c, pick(5, 7), minutes(pickf(2.5, 20))},
-			{"2blk-mixed-punch", c2, pick(5, 7), minutes(pickf(1, 8))},
+			{"3blk-aligned-punch", c, pick(5, 7), minutes(pickf(1.7, 16))},
+			{"3blk-from-two-user-snapshots", c3, pick(3, 4), minutes(pickf(0.9, 8))},
+			{"2blk-mixed-punch", c2, pick(5, 7), minutes(pickf(0.8, 8))},
 		}
 	case "C10":
 		c := ea.Cfg{Blocks: 1, Alphabet: []string{"W", "Mode:WO", "Mode:RW", "SetRev:7", "SetRev:3", "Close", "Open", "Reload", "SnapA", "ReopenP"},
